@@ -90,7 +90,7 @@ package bcl
 //@ func newLexer
 //@   noinv lexwin, token_log, window_is_a_piece_of_the_source
 //@   requires [C11,C06] line_table_updater_given: linePosUpdater != nil
-//@   requires [C11] fresh_token_protocol: !g.lx_fin && !g.lx_err && g.ev_close_tokens == 0 && g.ev_bytes_inputs == 0 && g.ev_send_tokens == 0
+//@   requires [C11] fresh_token_protocol: !g.lx_fin && !g.lx_err && g.ev_close_tokens == 0 && g.ev_bytes_inputs == 0 && g.ev_send_tokens == 0 && !g.ev_closed_inputs
 //@   promise [C11,C06] token_well_formed: at tokens: 0 <= $msg.typ && $msg.typ < tMAX && ($msg.typ == tERR ==> $msg.err != nil) && $msg.pos >= 0
 //@   promise [C11,C06] fail_follows_error: at tokens: $n > 0 && $prev.typ == tERR ==> $msg.typ == tFAIL
 //@   promise [C11,C06] nothing_after_a_finalizer: at tokens: $n > 0 ==> $prev.typ > tEOF
@@ -107,6 +107,20 @@ package bcl
 //@   modifies nothing
 //@ func (logger).Printf
 //@   modifies nothing
+//
+//@ group C17,C06,C10,C08
+//@ func (*parser).errorAtCurrent
+//@   noinv above_locals, fin
+//@   ensures reported: p.hadError && p.panicMode
+//@   assert [C08] the_current_token_is_reported_where_it_is: at errorAt#1: $t.pos == p.current.pos && $t.typ == p.current.typ && $t.val == p.current.val
+//@   modifies p.hadError, p.panicMode
+//@   ghost diags = g.diags + 1
+//@ func (*parser).error
+//@   noinv above_locals, fin
+//@   ensures reported: p.hadError && p.panicMode
+//@   assert [C08] the_previous_token_is_reported_where_it_is: at errorAt#1: $t.pos == p.prev.pos && $t.typ == p.prev.typ && $t.val == p.prev.val
+//@   modifies p.hadError, p.panicMode
+//@   ghost diags = g.diags + 1
 //
 //@ group C17,C06,C10
 //@ func (*parser).errorAt
@@ -215,7 +229,7 @@ package bcl
 //@   loop 1 invariant (g.lastfin ==> p.current.typ <= tEOF) && (g.lasterr ==> p.current.typ == tERR) && (p.panicMode == old(p.panicMode) || g.lasterr)
 //@   loop 1 invariant p.prev == old(p.current) && g.consumed >= old(g.consumed) && (g.lasterr ==> p.hadError)
 //@   loop 1 invariant g.consumed > old(g.consumed) || g.lastfin == old(g.lastfin)
-//@   loop 1 increases g.consumed
+//@   loop 1 increases [C06,C17,C11] g.consumed
 //
 //@ func (*parser).sync
 //@   ensures [C17] recovered: !p.panicMode || p.current.typ == tFAIL
@@ -228,7 +242,7 @@ package bcl
 //@   loop 1 invariant g.consumed > old(g.consumed) || p.current == old(p.current)
 //@   loop 1 invariant [C17] !p.panicMode || p.current.typ == tFAIL
 //@   loop 1 invariant [C17] (old(p.current.typ) <= tEOF || old(p.current.typ) == tVAR || old(p.current.typ) == tDEF || old(p.current.typ) == tPRINT || old(p.current.typ) == tEVAL) ==> (p.current == old(p.current) && g.consumed == old(g.consumed))
-//@   loop 1 increases g.consumed
+//@   loop 1 increases [C06,C17,C11] g.consumed
 
 // ---------------------------------------------------------------------------
 // constants pool
@@ -353,7 +367,7 @@ package bcl
 //@   loop 1 invariant len(p.prog.constants) >= old(len(p.prog.constants)) && (forall i int :: 0 <= i && i < old(len(p.prog.constants)) ==> p.prog.constants[i] == old(p.prog.constants[i]))
 //@   loop 1 invariant [C17] p.hadError || p.prev.typ != tSEMICOLON
 //@   loop 1 invariant (g.consumed > old(g.consumed) || old(p.current.typ) <= tEOF) && g.consumed >= old(g.consumed)
-//@   loop 1 increases g.consumed
+//@   loop 1 increases [C06,C17,C11] g.consumed
 //@   assert [C17,C02] assignment_only_at_lowest_precedence: at slot.parseRule.prefix: $canAssign == (prec <= precAssign)
 //@   assert [C17,C02] infix_gets_same_flag: at slot.parseRule.infix: $canAssign == (prec <= precAssign)
 //@   assert [C01] loop_continues_while_binding_tighter: at slot.parseRule.infix: prec <= rules[p.prev.typ].prec
@@ -435,10 +449,12 @@ package bcl
 //@   assert [C17,C01] expression_statement_discards_its_value: at emitOp#1: $op == opPOP
 //
 //@ func blockStmt
+//@   snapshot typetok: at consume#1.advance#1: p.current.val
+//@   assert [C03,C05] the_block_type_is_the_identifier_as_written: at identConst#1: $name == $typetok
 //@   assert [C17] a_terminator_never_follows_a_terminator: at match.advance#1: p.hadError || p.current.typ != tSEMICOLON || p.prev.typ != tSEMICOLON
 //@   ensures [C17] a_statement_does_not_end_with_a_terminator: p.hadError || p.prev.typ != tSEMICOLON
-//@   assert [C03] block_name_is_the_unquoted_literal: at Unquote#1: $s == p.prev.val && p.prev.typ == tSTR
-//@   assert [C03] block_name_constant_is_that_value: at makeConst#1: p.hadError || blockName == "" || blockName == g.unq_out
+//@   assert [C03,C05] block_name_is_the_unquoted_literal: at Unquote#1: $s == p.prev.val && p.prev.typ == tSTR
+//@   assert [C03,C05] block_name_constant_is_that_value: at makeConst#1: p.hadError || blockName == "" || blockName == g.unq_out
 //@   requires statement_boundary: g.uninit == 0 && (p.hadError || (g.pend == F0() && g.sd == p.scope.localCount))
 //@   ensures statement_boundary: g.uninit == 0 && (p.hadError || (g.pend == F0() && g.sd == p.scope.localCount))
 //@   ensures balanced: p.scope.depth == old(p.scope.depth) && (p.hadError || (g.bd == old(g.bd) && g.njopen == old(g.njopen)))
@@ -449,9 +465,11 @@ package bcl
 //@   loop 1 invariant g.uninit == 0 && (p.hadError || (g.pend == F0() && g.sd == p.scope.localCount && g.bd == old(g.bd) + 1 && g.njopen == old(g.njopen)))
 //@   loop 1 invariant p.scope.depth == old(p.scope.depth) + 1 && g.consumed >= old(g.consumed)
 //@   loop 1 invariant [C02] p.hadError || (p.scope.localCount >= old(p.scope.localCount) && (forall j int :: 0 <= j && j < old(p.scope.localCount) ==> p.scope.locals[j] == old(p.scope.locals[j])) && (forall j int :: old(p.scope.localCount) <= j && j < p.scope.localCount ==> p.scope.locals[j].depth > old(p.scope.depth)))
-//@   loop 1 increases g.consumed
+//@   loop 1 increases [C06,C17,C11] g.consumed
 //
 //@ func bindStmt
+//@   snapshot typetok: at consume#1.advance#1: p.current.val
+//@   assert [C04] the_bound_type_is_the_identifier_as_written: at identConst#1: $name == $typetok
 //@   ensures [C17] a_statement_does_not_end_with_a_terminator: p.hadError || p.prev.typ != tSEMICOLON
 //@   requires statement_boundary: g.uninit == 0 && (p.hadError || (g.pend == F0() && g.sd == p.scope.localCount))
 //@   ensures statement_boundary: g.uninit == 0 && (p.hadError || (g.pend == F0() && g.sd == p.scope.localCount))
@@ -460,14 +478,14 @@ package bcl
 //
 //@ func parse
 //@   assert [C17] a_terminator_never_follows_a_terminator: at match.advance#1: p.hadError || p.current.typ != tSEMICOLON || p.prev.typ != tSEMICOLON
-//@   ghostinit sd = 0; pend = F0(); bd = 0; uninit = 0; njopen = 0; maxtarget = 0; consumed = 0; lastfin = false; lasterr = false; diags = 0; lx_fin = false; lx_err = false; ev_close_tokens = 0; ev_bytes_inputs = 0; ev_send_tokens = 0; ev_recv_tokens = 0; bk = 2
+//@   ghostinit sd = 0; pend = F0(); bd = 0; uninit = 0; njopen = 0; maxtarget = 0; consumed = 0; lastfin = false; lasterr = false; diags = 0; lx_fin = false; lx_err = false; ev_close_tokens = 0; ev_bytes_inputs = 0; ev_send_tokens = 0; ev_recv_tokens = 0; ev_closed_inputs = false; bk = 2
 //@   ensures [C17] error_iff_diagnostic: ((result2 != nil) <==> g.diags > 0) && g.diags >= 0
 //@   ensures result0 != nil
 //@   ensures [C19,C03,C09,C06] complete_when_ok: result2 == nil ==> dumpable(result0)
 //@   loop 1 invariant invs(p)
 //@   loop 1 invariant p.scope.depth == 0 && g.uninit == 0 && (p.hadError || (g.pend == F0() && g.sd == p.scope.localCount && g.bd == 0 && g.njopen == 0))
 //@   loop 1 invariant [C17] toplevel_recovered: !p.panicMode || p.current.typ == tFAIL
-//@   loop 1 increases g.consumed
+//@   loop 1 increases [C06,C17,C11] g.consumed
 
 // ---------------------------------------------------------------------------
 // The Pratt rules table (written by init#1 only). The entries are the documented
